@@ -234,7 +234,7 @@ func GenMW(t *rapid.T) MWCase {
 }
 
 var (
-	apiBases = []string{"", "/", "/api", "/api/v1", "/api/", "/docs"}
+	apiBases = []string{"", "/", "/api", "/api/v1", "/api/", "/docs", "api", "api/"} // the last two: a description whose basePath lacks its slash (r10)
 	opPool   = []string{"/docs", "/docs/x", "/swagger.json", "/swagger.jsonx", "/d", "/docs.json/y", "/swagger.json/z", "/doc", "/x", "/docsx", "/ui/docs/more", "/dir/doc.json", "/dir/sub/doc.jsonl", "/docs/oauth2-callback", "/oauth2-callback"}
 	// spec locations for the API handler: well-formed references only
 	apiSpecURLs = []string{"", "", "/swagger.json", "/dir/sub/doc.json", "https://h.test/dir/doc.json", "http://h.test:8080/spec/openapi.json?x=1", "/api/swagger.json",
